@@ -44,6 +44,7 @@ type vfPipe struct {
 	maxChunk  int            // 0: any; else cap of one delivery
 	noFrag    bool           // deliver everything the reader asks for
 	parkWrites bool          // every Write parks first (only where no other goroutine can want the writer's lock)
+	errWithData bool         // the Read that hands out the last bytes before the end also returns the error (io.Reader allows it)
 	stallAt    int           // ordinal of the Write that stalls (back-pressure) until the scheduler releases it; -1 none
 	stallLen   int           // how many consecutive writes stall
 }
@@ -180,6 +181,22 @@ func (p *vfPipe) Read(b []byte) (int, error) {
 			copy(b, p.buf[p.rdOff:p.rdOff+n])
 			p.rdOff += n
 			p.granted -= n
+			if p.errWithData && p.granted == 0 && p.termErr == nil {
+				// the last bytes and the end of the stream in one Read call
+				var err error
+				if p.cutAt >= 0 && p.rdOff >= p.cutAt {
+					err = p.cutErr
+				} else if p.wclosed && p.rdOff == len(p.buf) {
+					err = io.EOF
+				}
+				if err != nil {
+					p.termErr = err
+					p.termSeq = s.seq
+					s.stats["fault."+p.name+".err-with-data"]++
+					s.mu.Unlock()
+					return n, err
+				}
+			}
 			s.mu.Unlock()
 			return n, nil
 		}
